@@ -47,6 +47,63 @@ type Case struct {
 	// CrossRows > 0: the counted list is the SECOND operand of a cross with CrossRows rows,
 	// numbers(R).cross(numbers(N).map(cnt), (a,b)->b): cross runs it once per row, lazily
 	CrossRows int `json:"cross_rows,omitempty"`
+	// NestVia != "": the counted pipeline is the ITEM of an outer list of NestRows rows,
+	// numbers(R).map(r -> pipeline); the consumer is applied to the rows an outer lazy
+	// consumer selects: "first" (the first row), "top" (the first NestTop rows), "multiUse"
+	// (the first row by one consumer, the first NestTop rows by the other). Rows nobody
+	// consumes, and the rest of a consumed row, are never evaluated.
+	NestVia  string `json:"nest_via,omitempty"`
+	NestRows int    `json:"nest_rows,omitempty"`
+	NestTop  int    `json:"nest_top,omitempty"`
+}
+
+// nested returns the program that applies the consumer to the selected rows, and the
+// number of rows that are consumed.
+func (c Case) nested() (*Expr, int) {
+	outer := MCall(SCall("numbers", Int(c.NestRows)), "map", lam("r", c.list()))
+	perRow := lam("row", c.Consumer.consume(Var("row")))
+	k := min(c.NestTop, c.NestRows)
+	switch c.NestVia {
+	case "first":
+		return c.Consumer.consume(MCall(outer, "first")), 1
+	case "top":
+		return MCall(MCall(outer, "top", Int(c.NestTop)), "map", perRow), k
+	case "multiUse":
+		return MCall(outer, "multiUse", Map([]string{"f", "t"}, []*Expr{
+			lam("o", c.Consumer.consume(MCall(Var("o"), "first"))),
+			lam("o", MCall(MCall(MCall(Var("o"), "top", Int(c.NestTop)), "map", perRow), "string"))})), 1 + k
+	}
+	panic("nest " + c.NestVia)
+}
+
+func (c Case) programText() string {
+	if c.NestVia != "" {
+		p, _ := c.nested()
+		return Render(p)
+	}
+	return Render(c.Consumer.consume(c.list()))
+}
+
+func (c Case) nestedWant(want ref.Value, ok bool) (ref.Value, bool) {
+	k := min(c.NestTop, c.NestRows)
+	rows := &ref.List{}
+	for i := 0; i < k && ok; i++ {
+		rows.Items = append(rows.Items, want)
+	}
+	switch c.NestVia {
+	case "top":
+		return rows, ok || k == 0
+	case "multiUse":
+		if !ok {
+			return nil, false
+		}
+		str, err := ref.ToString(rows)
+		if err != nil {
+			panic(err)
+		}
+		return &ref.Map{Keys: []string{"f", "t"}, Vals: []ref.Value{want, ref.Str(str)}}, true
+	}
+	return want, ok
 }
 
 var e, a, b, l = Var("e"), Var("a"), Var("b"), Var("l")
@@ -467,6 +524,17 @@ func check(c Case) (string, info) {
 	default:
 		prog = c.Consumer.consume(c.list())
 	}
+	mult := 1
+	if c.NestVia != "" && c.Unused == "" && hi > 3000 {
+		// (a multiUse consumer that is busy for seconds with one row runs into the
+		// distributor's timeout; that is not what this check is about)
+		inf.skip = "demand_beyond_cap"
+		return "", inf
+	}
+	if c.NestVia != "" && c.Unused == "" {
+		prog, mult = c.nested()
+		want, wantOK = c.nestedWant(want, wantOK)
+	}
 	text := Render(prog)
 	args := []string{"failAt"}
 	f, _, err := impl.Generate(text, args...)
@@ -485,10 +553,18 @@ func check(c Case) (string, info) {
 			failAt = d + c.FailGap
 		}
 	}
+	// every consumed row costs the demand of one consumption
+	d, window = d*mult, window*mult
+	inf.d = d
 	state.Reset()
 	state.CntLimit.Store(int64(d + window + par + 100000))
 	me := host.Gid()
 	v, everr := f.Eval(progs.ImplArgs(progs.Case{Args: []*Expr{Int(failAt)}}, 0)...)
+	var got progs.Outcome
+	if c.Unused == "" {
+		// (the rows of a nested case are consumed when the list of their results is read)
+		got = progs.Observe(v, everr)
+	}
 	calls := int(state.Cnt.Load())
 	inf.calls = calls
 	inf.parallel = state.OffCaller(me)
@@ -522,7 +598,10 @@ func check(c Case) (string, info) {
 		return fmt.Sprintf("%s: the element closure ran %d times, a lazy evaluation needs %d (+%d read-ahead%s)", where, calls, d, bound-d,
 			map[bool]string{true: " incl. parallel workers", false: ""}[inf.parallel]), inf
 	}
-	got := progs.Observe(v, everr)
+	if gl, isList := got.Val.(*ref.List); got.Err == nil && isList && gl.Err != nil && c.NestVia == "top" {
+		// the list of the rows' results fails at an item: the consumption of that row failed
+		got = progs.Outcome{Err: gl.Err}
+	}
 	if !wantOK {
 		if got.Err == nil {
 			return fmt.Sprintf("%s returns %v, the model fails (empty list)", where, got), inf
@@ -587,6 +666,12 @@ func TestPropC08(t *testing.T) {
 			c.N = rapid.IntRange(2, 25).Draw(t, "innerN")
 			c.Slow = false
 		}
+		if c.CrossRows == 0 && rapid.IntRange(0, 7).Draw(t, "nested") == 0 {
+			c.NestVia = rapid.SampledFrom([]string{"first", "top", "multiUse", "multiUse"}).Draw(t, "nestVia")
+			c.NestRows = rapid.IntRange(1, 6).Draw(t, "nestRows")
+			c.NestTop = rapid.IntRange(0, 4).Draw(t, "nestTop")
+			c.Slow = false
+		}
 		if c.CrossRows == 0 && rapid.IntRange(0, 2).Draw(t, "failing") == 0 {
 			c.FailGap = rapid.IntRange(0, 5).Draw(t, "failGap")
 			c.FailNear = rapid.Bool().Draw(t, "failNear")
@@ -596,6 +681,9 @@ func TestPropC08(t *testing.T) {
 			c.Unused = "let"
 		case 1:
 			c.Unused = "return"
+		}
+		if c.Unused != "" {
+			c.NestVia = ""
 		}
 		msg, inf := check(c)
 		if msg != "" {
@@ -627,9 +715,12 @@ func TestPropC08(t *testing.T) {
 		if c.CrossRows > 0 {
 			cls = append(cls, "counted_list_is_second_operand_of_cross")
 		}
+		if c.NestVia != "" {
+			cls = append(cls, "counted_pipeline_is_item_of_an_outer_list", "outer_consumer_"+c.NestVia)
+		}
 		nt := (c.N >= 1000000000 || c.FailGap >= 0 || c.CrossRows > 0) && inf.d < c.total()
 		evid.R.Case(nt, fmt.Sprint(c), func() any {
-			return map[string]any{"program": Render(c.Consumer.consume(c.list())), "n": c.N, "demand": inf.d, "calls": inf.calls, "bound": inf.bound, "unused": c.Unused}
+			return map[string]any{"program": c.programText(), "n": c.N, "demand": inf.d, "calls": inf.calls, "bound": inf.bound, "unused": c.Unused}
 		}, cls...)
 	})
 }
